@@ -34,9 +34,12 @@ EXPECTED_PROBES = ['abandon_at_connected', 'abandon_at_poll',
                    'abandon_in_persist', 'abandon_at_ready',
                    'abandon_while_other_thread_sends',
                    'reconnected_before_release', 'abandon_at_failed_attempt',
-                   'long_url', 'descriptor_zero']
+                   'long_url', 'descriptor_zero',
+                   'with_block_left_generator_kept']
 
 MECH = ['break', 'raise', 'close', 'with']
+# 'with_hold': as 'with', but the generator object is kept alive by the
+# consumer beyond the with-block (sweep_with_hold family)
 SLOTS = 4 * 120
 _NEV = {}
 
@@ -75,6 +78,7 @@ def plan(tier):
     return [('sweep', nb * SLOTS),
             ('sweep_long_url', nb * SLOTS),
             ('sweep_fd0', nb * SLOTS),
+            ('sweep_with_hold', nb * (SLOTS // 4)),
             ('early_faults', nb * len(EARLY) * 6 * 4),
             ('rebind', nb * (SLOTS // 4)),
             ('seeded', 2000 if tier == 'quick' else 100000),
@@ -176,6 +180,12 @@ def make_case(family, i, rng, tier):
         if c is not None:
             c['long_url'] = 120 + (i % 3) * 60
         return c
+    if family == 'sweep_with_hold':
+        b = i // (SLOTS // 4)
+        idx = i % (SLOTS // 4)
+        if idx >= _nevents(b):
+            return None
+        return {'base': b, 'index': idx, 'how': 'with_hold', 'faults': []}
     if family == 'sweep_fd0':
         # a process without stdin: the first socket gets descriptor 0
         c = make_case('sweep', i, rng, tier)
@@ -288,13 +298,18 @@ def execute(case):
                     'the consumer stopped at event %d (%s) by %s; faults %r'
                     % (base, srec['sock'], idx, evname, how,
                        case.get('faults')))
-    if rel.get('selectors_created', 0) != rel.get('selectors_closed', 0):
+    if how == 'with_hold':
+        # the consumer still holds the generator, whose frame owns the
+        # selector object (a poll object, no descriptor): only the socket
+        # can be, and must have been, released by WebSocket.__exit__
+        res.stats['probe:with_block_left_generator_kept'] += 1
+    elif rel.get('selectors_created', 0) != rel.get('selectors_closed', 0):
         res.bad('C13/selector_not_closed/%s/%s' % (how, evname),
                 'base %s: %d selector(s) created, %d closed after the '
                 'consumer stopped at event %d (%s) by %s' % (
                     base, rel.get('selectors_created'),
                     rel.get('selectors_closed'), idx, evname, how))
-    if rel['polls_alive']:
+    if rel['polls_alive'] and how != 'with_hold':
         res.bad('C13/selector_alive/%s/%s' % (how, evname),
                 '%d poll object(s) still reachable' % rel['polls_alive'])
     p = {'connected': 'abandon_at_connected', 'poll': 'abandon_at_poll',
